@@ -350,6 +350,39 @@ func run(c *mon.Ctx) {
 			c.Class(fmt.Sprintf("validate/sync47=%v/tsc=%d/afc=%d", b0 == 0x47, tsc, afc))
 		}
 	})
+	// ---- validation, getters and comparison are functions of the packet whoever else is validating at that moment
+	c.Floor("concurrent.calls", 20000)
+	c.Stream("concurrent-callers", c.N(3, 150), func(i int, r *gen.Rand) {
+		c.Concurrent("CheckErrors / header getters / Equal", 8, 4000, r, func(q *gen.Rand) string {
+			var p packet.Packet
+			q.Fill(p[:8])
+			if q.Bool() {
+				p[0] = 0x47
+			}
+			want := p[0] != 0x47 || p[3]>>6 == 1 || p[3]>>4&3 == 0
+			if got := p.CheckErrors() != nil; got != want {
+				return fmt.Sprintf("CheckErrors() reports an error=%v for sync %#02x, byte 3 %#02x; the three stated causes say %v", got, p[0], p[3], want)
+			}
+			pid := int(p[1]&0x1f)<<8 | int(p[2])
+			if p.PID() != pid || packet.Pid(&p) != pid || p.ContinuityCounter() != int(p[3]&15) {
+				return fmt.Sprintf("PID()=%#x / Pid()=%#x / ContinuityCounter()=%d for header %x", p.PID(), packet.Pid(&p), p.ContinuityCounter(), p[:4])
+			}
+			o := p
+			if !packet.Equal(&p, &o) {
+				return "a packet does not compare equal to its copy"
+			}
+			o[4+q.Intn(184)] ^= 1 << uint(q.Intn(8))
+			if packet.Equal(&p, &o) {
+				return "two packets that differ in one bit compare equal"
+			}
+			n := packet.IncrementCC(&p)
+			if n == nil || n[3] != p[3]&0xf0|(p[3]+1)&0x0f {
+				return "IncrementCC did not advance the counter by one"
+			}
+			return ""
+		})
+		c.Class("concurrent-callers")
+	})
 	// ---- the copy-returning helpers over long runs of calls: results are kept, and fed back as arguments
 	// after 1, 255, 256, 257, 512 ... further calls; no call may change its argument or an earlier result
 	c.Stream("helper-chains", c.N(6, 400), func(i int, r *gen.Rand) {
